@@ -39,7 +39,7 @@ Definition hcanon (p : list (hpos * bytes)) : list (bytes * bytes) :=
 Definition hpath_fp (p : list (hpos * bytes)) : bytes :=
   sha256 (1 :: flat_map (fun kv => fst kv ++ snd kv) (hcanon p))%uint63.
 
-Definition vcode (v : verdict) : N := match v with Accept => 0 | Reject => 1 | VPanic => 1 end.
+Definition vcode (v : verdict) : N := match v with Accept => 0 | Reject => 1 end.
 
 (* alterations of a membership answer (the fields of protocol.MembershipResult) *)
 Inductive malt : Type :=
@@ -77,7 +77,8 @@ Definition hist_or_empty (a : Bans) : list (pos * bytes) := match a_history _ _ 
 Definition apply_malt (a : Bans) (m : malt) : Bans :=
   let upd ex key hp hist cur q act :=
     {| a_key := key; a_exists := ex; a_hyper_value := a_hyper_value _ _ _ a; a_hyper_path := hp;
-       a_history := Some hist; a_current := cur; a_query := q; a_actual := act |} in
+       a_history := Some hist; a_hist_index := act; a_hist_version := q;
+       a_current := cur; a_query := q; a_actual := act |} in
   let ex := a_exists _ _ _ a in let key := a_key _ _ _ a in let hp := a_hyper_path _ _ _ a in
   let hist := hist_or_empty a in
   let cur := a_current _ _ _ a in let q := a_query _ _ _ a in let act := a_actual _ _ _ a in
